@@ -223,9 +223,13 @@ enum Topo {
     Caught,
     /// like Caught, and the very call that panicked is repeated without the injected panic
     CaughtRetry,
+    /// the original sits in a guard whose Drop calls `verify()` explicitly - while unwinding
+    VerifyInGuard,
+    /// the same with a clone still alive (verification could not even be attempted)
+    VerifyInGuardCloneAlive,
 }
 
-const TOPOS: [Topo; 13] = [
+const TOPOS: [Topo; 15] = [
     Topo::Plain,
     Topo::CloneOutlives,
     Topo::CloneDiesFirst,
@@ -239,6 +243,8 @@ const TOPOS: [Topo; 13] = [
     Topo::OriginalOnWorkerThread,
     Topo::Caught,
     Topo::CaughtRetry,
+    Topo::VerifyInGuard,
+    Topo::VerifyInGuardCloneAlive,
 ];
 
 fn applicable(o: Origin, t: Topo) -> bool {
@@ -397,6 +403,24 @@ fn child(origin: Origin, topo: Topo, met: bool) -> ! {
             let u = original;
             let c = u.clone();
             act(&c, origin, met);
+        }
+        Topo::VerifyInGuard | Topo::VerifyInGuardCloneAlive => {
+            struct Guard(Option<Unimock>);
+            impl Drop for Guard {
+                fn drop(&mut self) {
+                    if let Some(u) = self.0.take() {
+                        u.verify();
+                    }
+                }
+            }
+            let mut outlives: Option<Unimock> = None;
+            if topo == Topo::VerifyInGuardCloneAlive {
+                outlives.replace(original.clone());
+            }
+            let guard = Guard(Some(original));
+            act(guard.0.as_ref().unwrap(), origin, met);
+            drop(guard);
+            drop(outlives);
         }
         Topo::CloneParked => {
             let u = original;
